@@ -59,6 +59,16 @@ CHECKS = {
              'run); clingo.ast for atom extraction. A genuine defect was repaired by fix: commit (get_symbols guard). Partial: the equality of emitted '
              'arity and table arity for ALL inputs rests on the sampled search, the theorem covers the table and conversion functions.',
         design='DESIGN.md §6 C13'),
+    'C07': dict(
+        technique='Lean 4 proof of namer soundness and of hygiene for any sound namer + correspondence with the real namers and collision lists; adversarial renaming search',
+        text='Lean theorems: both name generators (exact transcriptions of create_new_field_value and _new_field_value) return only names outside '
+             'the avoid-list, for every avoid-list and base name; for ANY namer with that property, the names invented within a rule are pairwise '
+             'distinct and none of them is an author variable, provided the author variables are in the collision list.',
+        note='Trusted: Lean kernel; the correspondence harness (real namers on ~1400 adversarial inputs; the real defined_attributes of every '
+             'generated sentence); collision-list completeness for ALL inputs is not proved: it is checked per sentence and by renaming author '
+             'variables to the names invented in the same rule. A genuine defect (F5) was repaired by fix: commit 514424e; a residual '
+             'order-dependent case in the parser phase is a known finding (F5b).',
+        design='DESIGN.md §6 C07'),
 }
 
 NOT_YET = {}
